@@ -3,7 +3,7 @@ from ..sampler_rules import rule_L1_sampler, rule_L2_move, rule_L3_L4, rule_L5
 from ..shape import rule_S1, rule_V1
 from ..effects import rule_F5, rule_F7
 from ..agree import rule_A5
-from ..persist import rule_P4_sampler, rule_P1_P2
+from ..persist import rule_P4_sampler_subset, rule_P1_P2
 
 LEVEL_TEXT = ('Static lockstep analysis of the parallel point / log-likelihood / blob arrays '
               'along every bounded path of add_bound, add_samples and posterior, ordered-map and '
@@ -23,7 +23,9 @@ def run(ctx):
     rule_A5(ctx)        # each evaluated / transferred point is used at most once
     # ... also across a checkpoint resume: the rows, the transfer candidates and their
     # consumed marks reach the file after every batch and come back into the same attributes
-    rule_P4_sampler(ctx)
+    rule_P4_sampler_subset(ctx, ('points', 'log_l', 'blobs', 'shell_t', 'bound', 'pop_shell', 'add_bound', 'first-batch',
+                            'update-shell', 'batch-checkpointed', 'optional-init'),
+                           'the stored rows and the transfer set')
     prog = ctx.program
     rule_P1_P2(ctx, 'Sampler', prog.func('Sampler.write'), prog.func('Sampler.__init__'), 'self',
                reader_only_keys={'n_dim', 'n_live', 'n_update', 'n_like_new_bound',
